@@ -310,9 +310,8 @@ Section Variant.
     fold_left (fun acc b => if (2 ^ 64 <=? acc)%Z then acc else acc * 10 + digit_val b)%Z l 0%Z.
   Definition split_sign (l : list N) : bool * nat * list N :=   (* negative?, sign length, tail *)
     match l with
-    | 45%N :: r => (true, 1, r)
-    | 43%N :: r => (false, 1, r)
-    | _ => (false, 0, l)
+    | c :: r => if (c =? 45)%N then (true, 1, r) else if (c =? 43)%N then (false, 1, r) else (false, 0, l)
+    | [] => (false, 0, [])
     end.
   Definition parse_long (w : list N) : option (res * nat) :=
     let '(neg, sl, t) := split_sign w in
@@ -343,6 +342,13 @@ Section Variant.
                 else 0
     | [] => 0
     end.
+  (* "." digits*: (characters, digits, what follows) *)
+  Definition frac_part (t2 : list N) : nat * nat * list N :=
+    match t2 with
+    | c :: r => if (c =? 46)%N then let fr := take_while is_digit r in (1 + length fr, length fr, skipn (length fr) r)
+                else (0, 0, t2)
+    | [] => (0, 0, [])
+    end.
   Definition scan_float (l : list N) : option (fkind * nat) :=
     let '(_, sl, t1) := split_sign l in
     match t1 with
@@ -353,10 +359,7 @@ Section Variant.
       else
         let ip := take_while is_digit t1 in
         let t2 := skipn (length ip) t1 in
-        let '(fl, nfrac, t3) := match t2 with
-                                | 46%N :: r => let fr := take_while is_digit r in (1 + length fr, length fr, skipn (length fr) r)
-                                | _ => (0, 0, t2)
-                                end in
+        let '(fl, nfrac, t3) := frac_part t2 in
         if (length ip + nfrac =? 0) then None
         else Some (KNum, sl + length ip + fl + exp_len t3)
     end.
